@@ -163,6 +163,8 @@ class Config:
         self.known_fields = kw.get("known_fields", {})
         # methods that only hand out a place inside the machine (no effect of their own)
         self.accessors = kw.get("accessors", set())
+        # integer-valued fields sampled over a finite partition: path -> list of sample ints
+        self.int_fields = kw.get("int_fields", {})
 
 
 class Run:
@@ -333,6 +335,10 @@ class Run:
         if isinstance(v, tuple) and v[0] == "obj":
             if v[1] in self.fields:
                 return self.fields[v[1]]
+            if v[1] in self.cfg.int_fields:
+                n = self.choose("acq", "field " + v[1], [("#%d" % x, x) for x in self.cfg.int_fields[v[1]]])
+                self.fields[v[1]] = n
+                return n
             if v[1] in self.cfg.guards:
                 return ("unk", v[1])
         return v
@@ -397,7 +403,7 @@ class Run:
         return ("unk", e["op"] + showv(v))
 
     def e_Cast(self, e, env):
-        v = self.eval(e["e"], env)
+        v = self.resolve(self.eval(e["e"], env))
         ty = e["ty"].replace(" ", "")
         if is_unk(v):
             return ("unk", "(%s as %s)" % (showv(v), ty))
@@ -624,7 +630,7 @@ class Run:
 
     def e_Index(self, e, env):
         b = self.eval(e["e"], env)
-        i = self.eval(e["i"], env) if e["i"]["k"] != "Range" else ("unk", show(e["i"]))
+        i = self.resolve(self.eval(e["i"], env)) if e["i"]["k"] != "Range" else ("unk", show(e["i"]))
         if isinstance(b, tuple) and b[0] == "tuple" and isinstance(i, int):
             return b[1][i]
         return ("unk", "%s[%s]" % (showv(b), showv(i)))
@@ -748,6 +754,11 @@ class Run:
             self.act("call Self::" + last, [self.argv(a) for a in args])
             return ("unk", "Self::%s()" % last)
         args = [self.eval(a, env) for a in e["args"]]
+        if last == "from_u32" and len(args) == 1 and isinstance(self.resolve(args[0]), int):
+            n = self.resolve(args[0])
+            if 0 <= n <= 0x10FFFF and not (0xD800 <= n <= 0xDFFF):
+                return ("ctor", "Some", (("ch", chr(n)),))
+            return ("ctor", "None", ())
         if last in self.cfg.pure_fns:
             return ("unk", "%s(%s)" % (last, ",".join(showv(a) for a in args)))
         # place arguments are rendered as places
@@ -915,7 +926,7 @@ class Run:
                 it = s["item"]
                 if it.get("k") == "Fn":
                     # local helper fn: make it inlinable
-                    self.cfg.inline.setdefault(it["name"], {"sig": {"params": []}, "body": it["body"], "name": it["name"], "local": True})
+                    self.cfg.inline.setdefault(it["name"], {"sig": it.get("sig") or {"params": []}, "body": it["body"], "name": it["name"], "local": True})
                 continue
             else:
                 raise Unsupported("stmt " + k)
